@@ -4,9 +4,17 @@ import json
 import os
 import subprocess
 
-from .common import (HARNESS, OUT, ROOT, SPEC, ToolError, build_harness, hbin, log, pipe_gz_to, seed,
+from .common import (HARNESS, OUT, ROOT, SPEC, ToolError, apalache_cached, build_harness, hbin, log, pipe_gz_to, seed,
                      sh, tlc_cached, tlc_validate_trace)
 import sys
+
+
+INDUCTIVE = [
+    ("Init => IndInv", ["--cinit=ConstInit", "--init=Init", "--inv=IndInv", "--length=0"]),
+    ("IndInv /\\ Next => IndInv'", ["--cinit=ConstInit", "--init=IndInit", "--inv=IndInv", "--length=1"]),
+    ("IndInv => LookupCorrect", ["--cinit=ConstInit", "--init=IndInit", "--inv=LookupCorrect", "--length=0"]),
+    ("IndInv => NoForeignEntry", ["--cinit=ConstInit", "--init=IndInit", "--inv=NoForeignEntry", "--length=0"]),
+]
 
 
 def ensure_names():
@@ -80,3 +88,12 @@ def run_property(prop, tier, report):
                    "looked up; relation: all ordered pairs of the 530-name universe of the property; plus random "
                    "names (large numbers, long bases, pre-release/build spellings) validated by TLC")
     cov["samples"] = [{"replay_line": sample}, {"random_events": ev_samples}]
+    # unbounded: NameMapSpec refines NameMapInd (TLC), whose invariant is inductive (Apalache)
+    ref, rs = tlc_cached("names-refine", "MC_NameMapRef", "NameMapRef_q.cfg", workers=4, timeout=1800, keep=("NOTHING",))
+    cov["refinement_states"] = rs["distinct"]
+    ind = apalache_cached("names-inductive", "NameMapInd", INDUCTIVE, only_if_cached=(tier == "quick"))
+    cov["inductive_invariant"] = (
+        {"tool": "apalache", "obligations": ind["obligations"], "seconds": ind["seconds"],
+         "meaning": "for every universe of 6 names over 3 tracks with any track/rank assignment: Init => IndInv, IndInv /\\ Next => IndInv', "
+                    "IndInv => LookupCorrect /\\ NoForeignEntry -- insertion sequences of any length; NameMapSpec refines NameMapInd (TLC)"}
+        if ind else "not run in this tier (thorough discharges it; the result is cached by the content of NameMapInd.tla)")
